@@ -79,6 +79,46 @@ func c11(x *mon.Ctx) {
 		}
 		x.Require("small-signature-scalar", 24, 0, 24)
 	}
+	// public keys with a small coordinate (leading zero byte in X or Y; one key in 128): the attestation key in the quote, the
+	// PCK leaf key, the collateral signer's key
+	{
+		n := 0
+		for _, site := range []string{"attestation-key", "pck-leaf-key", "tcb-signer-key", "intermediate-ca-key"} {
+			for _, which := range []string{"x", "y"} {
+				w := richHonest(x.Rand(fmt.Sprint("small-key", n)))
+				n++
+				k := world.NewKeySmall(which)
+				switch site {
+				case "attestation-key":
+					w.Att = k
+					w.Q.AttPub = world.RawPub(&k.PublicKey)
+					w.Requote()
+				case "pck-leaf-key":
+					w.PKI.Leaf = world.Issue(world.LeafTemplate(world.Far, world.SgxExtension(w.P)), w.PKI.Inter, k)
+					w.Q.Chain = world.ChainPEM(false, w.PKI.Leaf, w.PKI.Inter, w.PKI.Root)
+					w.Requote()
+					w.MakeCRLs(nil, nil)
+				case "tcb-signer-key":
+					w.PKI.TcbSign = world.Issue(world.TcbSignTemplate(world.Far), w.PKI.Root, k)
+					w.Resign()
+					w.MakeCRLs(nil, nil)
+				case "intermediate-ca-key":
+					w.PKI.Inter = world.Issue(world.InterTemplate(world.CNPlatform, world.Far), w.PKI.Root, k)
+					w.PKI.Leaf = world.Issue(world.LeafTemplate(world.Far, world.SgxExtension(w.P)), w.PKI.Inter, w.PKI.Leaf.Key)
+					w.Q.Chain = world.ChainPEM(false, w.PKI.Leaf, w.PKI.Inter, w.PKI.Root)
+					w.Requote()
+					w.Resign()
+					w.MakeCRLs(nil, nil)
+				}
+				for _, l := range levels {
+					c := w.Case(l, "small-key-coordinate", fmt.Sprintf("%s/%s", site, which))
+					c.Form, c.Expect = mon.Forms[(n+l)%4], "accept"
+					check(x, n, c)
+				}
+			}
+		}
+		x.Require("small-key-coordinate", 24, 0, 24)
+	}
 	// a few worlds once more with the library logging at verbosity 2
 	x.AtVerbosity(2, func() {
 		x.Each(x.Pick(12, 200), func(i int) {
